@@ -171,6 +171,123 @@ def static_scan():
     return al, pa
 
 
+_FWD = None
+
+
+def forwarders():
+    """Functions of the package that hand their ``**kwargs`` on to a function decorated with the keyword-renaming wrapper
+    (directly or through another such function): an obsolete keyword given to them reaches the wrapper together with
+    whatever the forwarding call spells out itself. Found by an ast scan of the package sources; the callee is resolved on
+    the imported objects (``self.f`` / ``cls.f`` on the class of the caller, a bare name in the module globals, a class
+    name -> its ``__init__``).
+
+    -> [dict(via_module, via_owner, via_name, module, owner, name, mapping, explicit=[keywords the call spells out])]"""
+    global _FWD
+    if _FWD is not None:
+        return _FWD
+    import biogeme
+
+    root = os.path.dirname(biogeme.__file__)
+    found = []  # (module name, class name or None, function name, callee ast, explicit keywords)
+    for dp, _, files in os.walk(root):
+        for fn in sorted(files):
+            if not fn.endswith('.py'):
+                continue
+            path = os.path.join(dp, fn)
+            try:
+                tree = ast.parse(open(path, encoding='utf-8').read())
+            except SyntaxError:
+                continue
+            rel = os.path.relpath(path, os.path.dirname(root))[:-3].replace(os.sep, '.')
+            if rel.endswith('.__init__'):
+                rel = rel[: -len('.__init__')]
+
+            def visit(body, cls):
+                for node in body:
+                    if isinstance(node, ast.ClassDef):
+                        visit(node.body, node.name if cls is None else cls + '.' + node.name)
+                    elif isinstance(node, (ast.FunctionDef, ast.AsyncFunctionDef)) and node.args.kwarg is not None:
+                        kw = node.args.kwarg.arg
+                        for c in ast.walk(node):
+                            if isinstance(c, ast.Call) and any(k.arg is None and isinstance(k.value, ast.Name) and k.value.id == kw for k in c.keywords):
+                                found.append((rel, cls, node.name, c.func, [k.arg for k in c.keywords if k.arg]))
+
+            visit(tree.body, None)
+
+    def target_of(modname, clsname, callee):
+        """-> (owner class or None, module, function name, raw function) of the callee, or None"""
+        try:
+            mod = importlib.import_module(modname)
+        except BaseException:  # noqa
+            return None
+        cls = None
+        if clsname:
+            cls = mod
+            for part in clsname.split('.'):
+                cls = getattr(cls, part, None)
+            if not inspect.isclass(cls):
+                return None
+        if isinstance(callee, ast.Attribute) and isinstance(callee.value, ast.Name) and callee.value.id in ('self', 'cls') and cls is not None:
+            for k in cls.__mro__:
+                if callee.attr in k.__dict__:
+                    return k, importlib.import_module(k.__module__), callee.attr, _raw(k.__dict__[callee.attr])
+            return None
+        if isinstance(callee, ast.Name):
+            obj = getattr(mod, callee.id, None)
+            if inspect.isclass(obj):
+                for k in obj.__mro__:
+                    if '__init__' in k.__dict__:
+                        return k, importlib.import_module(k.__module__), '__init__', _raw(k.__dict__['__init__'])
+                return None
+            if inspect.isfunction(obj):
+                return None, importlib.import_module(obj.__module__), obj.__name__, obj
+        return None
+
+    out = []
+    known = {}  # id(raw function) -> (owner qual, module, name, mapping) of the wrapper finally reached
+    changed = True
+    done = set()
+    while changed:
+        changed = False
+        for i, (modname, clsname, fname, callee, explicit) in enumerate(found):
+            if i in done:
+                continue
+            t = target_of(modname, clsname, callee)
+            if t is None:
+                continue
+            owner, tmod, tname, raw = t
+            m = dp_mapping(raw)
+            if m is not None:
+                reach = (qual(owner) if owner else None, tmod.__name__, tname, m)
+            elif id(raw) in known:
+                reach = known[id(raw)]
+            else:
+                continue
+            done.add(i)
+            changed = True
+            mod = importlib.import_module(modname)
+            via_cls = None
+            if clsname:
+                via_cls = mod
+                for part in clsname.split('.'):
+                    via_cls = getattr(via_cls, part)
+            via_raw = _raw((via_cls.__dict__ if via_cls else vars(mod)).get(fname))
+            if via_raw is not None:
+                known[id(via_raw)] = reach
+            out.append({'via_module': modname, 'via_owner': qual(via_cls) if via_cls else None, 'via_name': fname,
+                        'owner': reach[0], 'module': reach[1], 'name': reach[2], 'mapping': dict(reach[3]), 'explicit': explicit})
+    uniq = {}
+    for r in out:  # several call sites of one caller to the same function count once
+        k = (r['via_module'], r['via_owner'], r['via_name'], r['owner'], r['module'], r['name'])
+        if k in uniq:
+            uniq[k]['explicit'] = sorted(set(uniq[k]['explicit']) | set(r['explicit']))
+        else:
+            uniq[k] = r
+    out = sorted(uniq.values(), key=lambda r: (r['via_module'], r['via_owner'] or '', r['via_name']))
+    _FWD = out
+    return out
+
+
 def resolve_class(q: str):
     mod, _, name = q.rpartition('.')
     m = importlib.import_module(mod)
@@ -363,6 +480,9 @@ def observe(call, subdir: str, watch_codes=(), timeout=100.0):
 
         base = os.environ['BIOMON_WORKDIR']  # set by the worker or by the ``scratch`` context
         d = os.path.join(base, subdir)
+        import shutil
+
+        shutil.rmtree(d, ignore_errors=True)  # a worker runs many cases in one scratch dir: nothing left from an earlier one
         os.makedirs(d, exist_ok=True)
         os.chdir(d)
         for fn in call.get('files', {}) or {}:
